@@ -6,7 +6,9 @@
 #       sub-agents): every seed this property's check is recorded to catch (meta.json: caught_by) is applied to a scratch copy of the CURRENT
 #       /repo tree, facts are extracted, the property's rule file is evaluated and must report a violation. Seeds that no longer apply are
 #       skipped and counted. A seed that is no longer reported means the rule set lost power: that is reported in the evidence and on stdout
-#       (`SELFTEST-MISS`), never as a VIOLATION of the tree under test.
+#       (`SELFTEST-MISS`), never as a VIOLATION of the tree under test;
+#   (4) the same in the other direction against the benign corpus (/verif/benign/<property>-R*/patch.diff, behaviour-preserving refactorings):
+#       the property's check must stay silent on each; an alarm is printed as `SELFTEST-FALSE-ALARM` and recorded in the evidence.
 import os, sys, json, glob, shutil, subprocess, tempfile, time, hashlib, concurrent.futures as cf
 from .rules import RuleResult
 
@@ -76,12 +78,32 @@ def seed_selftest(cid):
     return r, res
 
 
+def benign_selftest(cid):
+    """the other direction of the self-test: the behaviour-preserving refactorings written for this property (benign/<cid>-R*/patch.diff, existing
+    tests pass with each) are applied to a scratch copy of the current tree; this property's check must stay silent. An alarm is printed as
+    SELFTEST-FALSE-ALARM and recorded in the evidence (the known remaining ones are discussed in DESIGN.md section 13); never a VIOLATION."""
+    r = RuleResult("T.benign", "self-test: the behaviour-preserving variants written for this property raise no alarm", floor=0)
+    jobs = [(cid, os.path.basename(os.path.dirname(p_)), p_) for p_ in sorted(glob.glob(os.path.join(ROOT, "benign", cid + "-R*", "patch.diff")))]
+    res = {"silent": [], "alarm": [], "skipped": [], "error": []}
+    with cf.ThreadPoolExecutor(max_workers=min(8, max(1, len(jobs)))) as ex:
+        for seed, st, info in ex.map(_seed_one, jobs):
+            st2 = {"caught": "alarm", "missed": "silent"}.get(st, st)
+            res[st2].append(seed); r.sites += 1
+            if st2 == "alarm":
+                print(f"SELFTEST-FALSE-ALARM property={cid} variant={seed} {info}")
+                if len(r.samples) < 6: r.samples.append(f"{seed}: {info}")
+    return r, res
+
+
 def run(cid, F, facts_dir, key):
     out, extra = [], {}
     t0 = time.time()
     out.append(fresh_extraction(facts_dir))
     r, res = seed_selftest(cid)
     out.append(r)
+    rb, resb = benign_selftest(cid)
+    out.append(rb)
+    extra["selftest_benign"] = {k: v for k, v in resb.items()}
     extra["selftest_seeds"] = {k: v for k, v in res.items()}
     extra["selftest_rule"] = "seeded variants are applied to a scratch copy of the current tree; a miss is reported as SELFTEST-MISS and in this evidence, it is not a violation of the tree under test"
     extra["thorough_wall_s"] = round(time.time() - t0, 1)
